@@ -108,8 +108,23 @@ def probe_servers(ks):
 
 
 @priv.in_worker
+def probe_census(n):
+    """harness/c16_census.py in a fresh interpreter (default warning filters): census of what pygls owns after
+    serving the same history shape at length n and 2n, per history class."""
+    import subprocess
+    r = subprocess.run([core.PY, os.path.join(core.ROOT, "harness", "c16_census.py"), str(n)],
+                       capture_output=True, text=True, timeout=600,
+                       env=dict(os.environ, PYTHONWARNINGS=""))
+    lines = [l for l in r.stdout.splitlines() if l.startswith("{")]
+    if r.returncode != 0 or not lines:
+        return ["raise", "census", (r.stderr or "")[-300:]]
+    return json.loads(lines[-1])
+
+
 def _run_any(case):
     try:
+        if case.get("probe") == "census":
+            return probe_census(case["n"])
         if case.get("probe") == "methods":
             return probe_methods(case["n"])
         if case.get("probe") == "servers":
@@ -269,6 +284,7 @@ class C16(c01.C01):
             for f in sorted(os.listdir(cdir)):
                 if f.endswith(".json"):
                     cases.extend(json.load(open(os.path.join(cdir, f))))
+        cases.append({"probe": "census", "n": chk.n(50, 100)})
         cases.append({"probe": "methods", "n": chk.n(2000, 20000)})
         cases.append({"probe": "servers", "ks": chk.n([150, 300], [150, 300, 450])})
         rng = chk.rng
@@ -299,7 +315,16 @@ class C16(c01.C01):
         for k, r in zip(order, res):
             out[k] = r
         growth = []
-        probes = [{"probe": c["probe"], "measured": r} for c, r in zip(cases, out) if "probe" in c]
+        probes = []
+        for c, r in zip(cases, out):
+            if "probe" in c:
+                m = r
+                if c["probe"] == "census" and isinstance(r, dict):
+                    m = {k: v for k, v in r.items() if k != "classes"}
+                    m["grown"] = {cl: v["grown"] for cl, v in r["classes"].items() if v["grown"]}
+                    m["classes"] = sorted(r["classes"])
+                    m["census_entries"] = max(v["census_entries"] for v in r["classes"].values())
+                probes.append({"probe": c["probe"], "measured": m})
         for c, r in zip(cases, out):
             if isinstance(r, dict) and "obs" in r and c.get("n_plus_m", 0) >= 100:
                 sz = [len(o["futs"]) + len(o["rtypes"]) for o in r["obs"]]
@@ -374,6 +399,10 @@ class C16(c01.C01):
         if "probe" in case:
             if not isinstance(impl, dict):
                 return False
+            if case["probe"] == "census":
+                # nothing pygls owns may differ between serving n and 2n requests of any class
+                return (impl.get("warmup_stable") is True and
+                        all(not v["grown"] and v["tables"] == [0, 0] for v in impl["classes"].values()))
             if case["probe"] == "methods":
                 return (impl["tables"] == 0 and
                         impl["second_half_growth"] <= max(GROWTH_FLOOR, GROWTH_PER_REQUEST * case["n"]))
